@@ -113,6 +113,25 @@ IMPORT_FORMS = [
 ]
 
 
+# Types that name (generic) classes of other modules: resolvable ones (collections, enum: bundled
+# stubs) and unresolvable ones (foo).  Each is put into every one-hole declaration form.
+EXTERNAL_HEADER = ("import collections\nimport enum\nimport foo\nimport foo.bar\n"
+                   "from typing import Any, Callable, Generic, Optional, TypeVar, Union, overload\n\n")
+EXTERNAL_TYPES = ["collections.OrderedDict[str, int]", "collections.deque[int]", "collections.defaultdict[str, list[int]]",
+                  "collections.Counter[str]", "type[collections.OrderedDict]", "enum.Enum", "Optional[collections.deque[A]]",
+                  "foo.Gen[int]", "foo.bar.Gen[str, foo.Bar]", "list[foo.Bar]", "Union[collections.deque[int], foo.Gen[int]]",
+                  "Callable[[collections.deque[int]], foo.Bar]"]
+
+
+def external_stubs(tier):
+  out = []
+  decls = DECLS1 if tier != "quick" else DECLS1[:4] + DECLS1[8:12] + DECLS1[14:]
+  for d in decls:
+    for t in EXTERNAL_TYPES:
+      out.append(EXTERNAL_HEADER + CLASS_DEFS + d.format(T=t, n=""))
+  return out
+
+
 def sid(text):
   return hashlib.sha1(text.encode()).hexdigest()[:16]
 
@@ -151,6 +170,8 @@ def stubs(tier):
     t, u = small[(i + j) % len(small)], small[(i * 3 + j + 1) % len(small)]
     add(module([d1.format(T=t, U=u, n="1"), d2.format(T=u, U=t, n="2")]))
   for f in IMPORT_FORMS:
+    add(f)
+  for f in external_stubs(tier):
     add(f)
   return out
 
